@@ -98,7 +98,9 @@ def dur_cases():
     cases = []
     amounts = ['0', '1', '5', '999', '1_000', '1.5', '0.5', '0.25', '0.001', '0.000001', '0.000000001', '1.0000000001', '2.125',
                '18446744073709551615', '18446744073709551616', '99999999999999999999', '106751991167300', '106751991167301',
-               '9223372036854775807', '9223372036854775808', '0.123456789012345', '0.1234567890123456']
+               '9223372036854775807', '9223372036854775808', '0.123456789012345', '0.1234567890123456',
+               # underscores inside the fraction and on both sides of the point: they separate digits, they are not digits
+               '1.000_5', '0.2_5', '1_0.5_0', '0.000_000_001', '0.123_456_789_012_345', '0.1_2_3_4_5_6_7_8_9_0_1_2_3_4_5_6', '2.1_2_5']
     for amt in amounts:
         for unit in UNITS:
             for pre in ['T#', 'TIME#', 't#', 'time#']:
@@ -113,6 +115,7 @@ def dur_cases():
 
 
 def tod_expected(h, m, s_txt):
+    s_txt = s_txt.replace('_', '')
     s = Fraction(s_txt)
     whole = int(s_txt.split('.')[0]); frac = s - whole
     if h > 23 or m > 59 or whole > 59: return None
@@ -125,7 +128,7 @@ def tod_cases():
     cases = []
     for h in [0, 1, 12, 23, 24, 255, 256]:
         for m in [0, 59, 60, 300]:
-            for s in ['0', '59', '60', '300', '59.5', '59.999999', '0.000001', '0.0000001', '59.9999999999']:
+            for s in ['0', '59', '60', '300', '59.5', '59.999999', '0.000001', '0.0000001', '59.9999999999', '59.2_5', '0.000_001', '3_0.12_5']:
                 if (h not in (0, 23)) and (m not in (0, 59)) and s not in ('0', '59'): continue
                 e = tod_expected(h, m, s)
                 exp = f'tod {e[0]} {e[1]} {e[2]} {e[3]}' if e else 'ERR P0002'
